@@ -23,14 +23,14 @@ ID = "C17"
 SHARDS = {"quick": 16, "thorough": 16}
 RULE = ("cross product of all registered passes (default-constructible options, plus each pass's "
         "schedule_space) with verifying chunks of the .mlir corpus (quick: a fixed stratified "
-        "sample, every pass x 20 modules; thorough: the full cross product) and irgen modules; a pass "
+        "sample, every pass x 24 modules, half of them from the pass's own test inputs; thorough: the full cross product) and irgen modules; a pass "
         "that raises reported failure (counted); a pass exceeding 20 s is inconclusive. Oracle after a "
         "successful pass: module.verify(), no ErasedSSAValue operand, structural/use-def invariants, "
         "successors in the same region, generic print -> parse -> canonical form equal. Non-trivial: the "
         "pass changed the module's canonical form.")
 ASSUMPTIONS = ["vt.canon / vt.invariants are correct", "pass exceptions of any type count as reported failure"]
 
-TIMEOUT_S = 20
+TIMEOUT_S = 10
 
 
 class _Timeout(BaseException):
@@ -215,14 +215,29 @@ def checks(h):
     keys = [(rel, idx) for rel, idx, _ in ch]
     jobs = []
     if h.quick:
-        # a FIXED stratified sample (every pass x 20 chunks), deliberately independent of the seed: the
-        # cross product contains hundreds of latent findings, and the known-findings list can only be
-        # complete for an enumerated set; the seed drives the generated (irgen) modules below
-        per = 20
+        # a FIXED stratified sample (every pass x 24 chunks), deliberately independent of the seed: the
+        # cross product contains many latent findings, and the known-findings list can only be complete
+        # for an enumerated set; the seed drives the generated (irgen) modules below.  Half of each
+        # pass's sample is taken from the corpus files whose path mentions the pass (its own filecheck
+        # inputs: the modules it actually rewrites), the rest is spread over the whole corpus.
         for pi, p in enumerate(names):
-            for j in range(per):
-                k = (pi * 7919 + j * 104729) % len(keys)
-                jobs.append((p, keys[k], (j % 3 == 2) * 1))
+            toks = [t for t in p.replace("_", "-").split("-") if len(t) >= 3 and t not in ("convert", "test", "lower", "the")]
+            fn = p.replace("-", "_")
+            own = [k for k in keys if fn in k[0].replace("-", "_") or p in k[0]]
+            rel_ = [k for k in keys if k not in own and toks and all(t in k[0] for t in toks[:2])]
+            pref = own + rel_
+            chosen = []
+            if pref:
+                stepn = max(1, len(pref) // 12)
+                chosen = pref[::stepn][:12]
+            j = 0
+            while len(chosen) < 24:
+                k = keys[(pi * 7919 + j * 104729) % len(keys)]
+                j += 1
+                if k not in chosen:
+                    chosen.append(k)
+            for j, k in enumerate(chosen):
+                jobs.append((p, k, (j % 3 == 2) * 1))
     else:
         for p in names:
             for k in keys:
@@ -235,4 +250,4 @@ def checks(h):
         run(h, {"pass": p, "file": rel, "idx": idx, "opt": opt})
     s_gen = st.fixed_dictionaries({"pass": st.sampled_from(names),
                                    "mod": irgen.module_recipes(depth=2, max_ops=3, max_blocks=3)})
-    h.hyp("gen", s_gen, lambda r: run(h, r), h.scale(40, 2500), 1)
+    h.hyp("gen", s_gen, lambda r: run(h, r), h.scale(30, 500), 1)
